@@ -46,6 +46,11 @@ def run(rp):
         if cc is not None and cc.replay_real:
             continue
         N.CALLS.setdefault(call["target"], []).append(call)
+    try:
+        import importlib as _il
+        _il.import_module(rp["target"].split(":")[0])  # so that its by-name imports of stubbed callees exist and can be rebound
+    except Exception:
+        pass
     for tgt in list(N.CALLS):
         if ":" in tgt and not tgt.split(":")[0] in ("threading", "re"):
             try:
@@ -62,8 +67,24 @@ def run(rp):
                 else:
                     setattr(owner, parts[-1], (lambda _t: (lambda *a, **k: N.pop_call(_t, a, k)))(tgt))
                 patched.append((owner, parts[-1], orig))
+                if not is_attr and len(parts) == 1:
+                    # `from module import name` copies: rebind them in every loaded repository module
+                    for mn, m in list(sys.modules.items()):
+                        if mn.startswith("schemathesis") and m is not None and m is not owner:
+                            for gname, gval in list(vars(m).items()):
+                                if gval is orig:
+                                    setattr(m, gname, getattr(owner, parts[-1]))
             except Exception:
                 pass
+    for tgt, repl in native.get("patch", {}).items():
+        # contract-provided native stand-ins for trusted pure callees that need a live object graph (stated in the contract module)
+        import importlib
+        modname, _, path = tgt.partition(":")
+        owner = importlib.import_module(modname)
+        parts = path.split(".")
+        for part in parts[:-1]:
+            owner = getattr(owner, part)
+        setattr(owner, parts[-1], repl)
     try:
         args = {k: N.decode(v, ctx) for k, v in rp["inputs"]["args"].items() if not k.startswith("outer_")}
     except N.Undecodable as e:
@@ -99,6 +120,12 @@ def run(rp):
 
     try:
         sig_args = dict(args)
+        try:
+            for prm in inspect.signature(fn).parameters.values():
+                if prm.kind is inspect.Parameter.VAR_KEYWORD and isinstance(sig_args.get(prm.name), dict):
+                    sig_args.update(sig_args.pop(prm.name))  # the contract names the **kwargs dict as one argument
+        except (TypeError, ValueError):
+            pass
         result = fn(**sig_args) if not rp.get("positional") else fn(*[args[k] for k in rp["positional"]])
         if inspect.isgenerator(result):
             items = []
@@ -110,11 +137,14 @@ def run(rp):
             result = items
     except BaseException as e:  # noqa: BLE001
         raised = e
+    if getattr(c, "native_view", None) is not None and raised is None:
+        result = c.native_view(result)  # contract-provided abstraction of the native result (same view the clauses speak about)
     env["result"] = result
     env["raised"] = type(raised).__name__ if raised is not None else None
     env["exc"] = raised
     out = {"confirmed": False, "why": "", "result": repr(result)[:400], "raised": repr(raised)[:400] if raised is not None else None, "violated": []}
     if raised is not None:
+        out["raised_at"] = "".join(traceback.format_tb(raised.__traceback__))[-700:]
         allowed = any(any(k.__name__ == r.split(":")[-1].split(".")[-1] for k in type(raised).__mro__) for r in c.raises)
         if not allowed:
             out["violated"].append(f"raises:{type(raised).__name__}")
@@ -140,6 +170,8 @@ def run(rp):
     elif out["violated"]:
         # a different clause fails natively: not a confirmation of THIS obligation (often the harness could not build a realistic input)
         out["why"] = f"real function violates {out['violated']} on the model input, but not the reported obligation {kindname}"
+    elif any(e.split(": ")[0] == kindname for e in out.get("eval_errors", [])):
+        out["why"] = f"the reported clause {kindname} could not be evaluated natively ({[e for e in out['eval_errors'] if e.split(': ')[0] == kindname][0][:200]}): not judged on the real run"
     else:
         out["why"] = "real function satisfies every clause on the model input"
     if N.GHOST.get("__effect_errors__") and out["confirmed"]:
